@@ -105,12 +105,24 @@ def eval_C15(item):
     for name, ov in variants:
         c2 = dict(case)
         c2.update(ov)
+        nb = None
         if name == 'after-prelude':
             run_prelude(item['prelude'], item['pseed'])
+            if case.get('periodic'):
+                # one neighbours object used for several arrays of different shapes, as a script would
+                from astrodendro.dendrogram import periodic_neighbours
+                from astrodendro import Dendrogram
+                per = list(case['periodic'])
+                nb = periodic_neighbours(per if len(per) != 1 or case.get('per_as_list') else per[0])
+                other_shape = [s_ + 2 for s_ in case['shape']]
+                import random
+                rr = random.Random(item['pseed'])
+                other = np.array([rr.randint(0, 9) for _ in range(int(np.prod(other_shape)))], dtype=float).reshape(other_shape)
+                Dendrogram.compute(other, neighbours=nb)
         try:
             arr = impl.make_array(c2)
             before = np.array(arr, copy=True)
-            d2, a2 = impl.compute_impl(c2, verbose=bool(ov.get('verbose')))
+            d2, a2 = impl.compute_impl(c2, verbose=bool(ov.get('verbose')), neighbours_obj=nb)
             wf = impl.forest_wellformed(d2)
             if wf:
                 res['pred'].append('%s: %s' % (name, wf[0]))
@@ -392,7 +404,7 @@ def eval_C17(item):
 def gen_item_C20(rng, idx, tier):
     case = gen.gen_compute_case(rng, maxpix=30)
     case['dtype'] = 'float64'
-    kind = rng.choice(['same', 'params', 'crits', 'data', 'nanmask', 'loaded', 'pruned', 'shape', 'minv', 'nondendro'])
+    kind = rng.choice(['same', 'params', 'crits', 'data', 'nanmask', 'loaded', 'pruned', 'pruned2', 'shape', 'minv', 'nondendro'])
     return {'case': case, 'kind': kind, 'r': rng.randrange(10 ** 6)}
 
 
@@ -453,7 +465,26 @@ def eval_C20(item):
             except Exception as e:
                 res['pred'].append('comparison with %s raised %s' % (type(other).__name__, type(e).__name__))
         return res
-    d2, a2 = impl.compute_impl(c2)
+    true_params = None
+    if kind == 'pruned2':
+        # compute with both criteria set, then prune lowering one (warning only) and raising the other; compare with
+        # the dendrogram computed directly with the parameters that are really in force afterwards
+        D = max(case['mind'], 2)
+        n0 = max(case['minn'], 1)
+        n1 = n0 + r.randint(1, 3)
+        case = dict(case)
+        case['mind'], case['minn'], case['crits'] = D, n0, []
+        c2 = copy.deepcopy(case)
+        c2['minn'] = n1
+        d1, a1 = impl.compute_impl(c2)           # the reference: computed with (D, n1)
+        o1 = impl.observe(d1, c2)
+        d2, a2 = impl.compute_impl(case)
+        with warnings.catch_warnings():
+            warnings.simplefilter('ignore')
+            d2.prune(min_delta=(D // 2) / float(2 ** case['fb']), min_npix=n1)
+        true_params = {'min_delta': D, 'min_npix': n1}
+    else:
+        d2, a2 = impl.compute_impl(c2)
     if kind == 'loaded':
         fmt = r.choice(['hdf5', 'fits'])
         os.makedirs(WORK, exist_ok=True)
@@ -482,9 +513,15 @@ def eval_C20(item):
         res['pred'].append('== is not symmetric: %r vs %r' % (e12, e21))
     # specification
     same_data = list(c2['shape']) == list(case['shape']) and c2['k'] == case['k']
-    if kind in ('loaded', 'pruned'):
+    if kind in ('loaded', 'pruned', 'pruned2'):
         same_data = True
     p1, p2 = d1.params, d2.params
+    if true_params is not None:
+        fbk = case['fb']
+        p2 = dict(p2)
+        p2['min_delta'] = true_params['min_delta'] / float(2 ** fbk)
+        p2['min_npix'] = true_params['min_npix']
+        p1 = dict(p1)
     same_minv = p1['min_value'] == p2['min_value']
     compat = all(p1[k] == 0 or p2[k] == 0 or p1[k] == p2[k] for k in ('min_delta', 'min_npix'))
     same_part = label_partition(o1) == label_partition(o2) if same_data else False
